@@ -566,16 +566,29 @@ func (m *Mux) serveHTTP(w http.ResponseWriter, r *http.Request) error {
 		})
 	}
 	if herr != nil {
+		ew := w
 		if !stream.sentHeader {
 			// Nothing went through the compressor: drop it, so that closing
 			// it does not append its header and trailer to the error body.
 			zc = nil
 			w.Header().Set("Content-Encoding", "identity") // try to avoid gzip
+		} else if zc != nil {
+			// The compressed reply is under way: the error is part of it.
+			ew = compressedWriter{ResponseWriter: w, z: resp}
 		}
-		m.encError(w, r, herr)
+		m.encError(ew, r, herr)
 	}
 	return nil
 }
+
+// compressedWriter writes the body through the compressing writer that the
+// response headers announced.
+type compressedWriter struct {
+	http.ResponseWriter
+	z io.Writer
+}
+
+func (c compressedWriter) Write(b []byte) (int, error) { return c.z.Write(b) }
 
 func streamHTTPFromCtx(ctx context.Context) (*streamHTTP, error) {
 	ss := grpc.ServerTransportStreamFromContext(ctx)
